@@ -449,6 +449,16 @@ int main(int argc, char *argv[])
           }
           fprintf(asm_context.list, "\n%04x:", i/asm_context.bytes_per_address);
           ptr = 0;
+
+          // A run that starts inside an address unit (bytes_per_address > 1):
+          // leave the columns of the bytes in front of it blank, so that
+          // column k of a line is always the byte at address * unit + k.
+          for (uint32_t k = 0; k < i % asm_context.bytes_per_address && k < 15; k++)
+          {
+            fprintf(asm_context.list, "   ");
+            str[ptr++] = ' ';
+            ch++;
+          }
         }
 
         uint8_t data = asm_context.memory_read(i);
